@@ -78,6 +78,11 @@ def gen_problem(rng, kind, quick, level=1, counts=None, layers=None):
         elif info.get("kind") == "split": rad = 0.35 * info["r_inner"]; cen = (c[0], c[1], c[2] + rng.choice([-0.45, 0.45]) * info["r_inner"])
         else: rad = 0.12 * R; cen = (c[0], c[1] + rng.choice([-0.5, 0.5]) * R, c[2])
         p, q = models.dipoles_in_ball(rng, 1, cen, rad, 0.9)
+        if info.get("kind") == "nested" and rng.random() < 0.5:
+            # close to the innermost interface (0.9-0.98 of its radius, but not closer than 0.04 of it to the facets of the
+            # 42-vertex mesh, whose inscribed radius is ~0.93): the depth reached by the adaptive integration matters there
+            u = models.random_unit(rng); rr = rng.uniform(0.80, 0.89) * info["radii"][0]
+            p = [tuple(c[k] + rr * u[k] for k in range(3))]
         dips.append(tuple(p[0]) + tuple(rng.choice([1.0, 1e-2, 30.0]) * x for x in q[0]))
     zero_expected = []
     if info.get("hole") and rng.random() < 0.8:
